@@ -32,7 +32,10 @@ ASSUMPTIONS = [
     "'converged within 1500 evaluations' is a floating-point convergence-rate claim: tested on the statement's problem class, not proved",
     "benchmark functions are re-evaluated by a fresh instance of the same libnano class (their formulas are C06's subject); the random "
     "quadratics are re-evaluated by the python oracle itself",
-    "replays log at most 60 iterations of problems with n <= 16; longer / larger runs are checked by the property oracle only",
+    "replays log at most 60 iterations per run; later iterations are checked by the property oracle only",
+    "the 1500-evaluation clause is checked for the registered configuration of lbfgs / bfgs (the statement's 'the L-BFGS or BFGS solver at "
+    "epsilon = 1e-8'); with solver::lbfgs::history or the scaled start changed only 'converged' and the accuracy bound are demanded "
+    "(observed: history = 1 on kappa = 1e3, n = 15 converges after 7614 evaluations)",
 ]
 RULE = ("statement experiment: random strongly convex quadratics (kappa log-uniform in [1,1e3] with clustered / spread / two-point spectra, "
         "n 1..16, scale 1e-3..1e3, minimiser in [-5,5]^n, x0 in [-10,10]^n incl. box faces) with lbfgs (history 1..20 + default) and bfgs at "
@@ -43,13 +46,18 @@ FLAVOUR = {"quick": "plain", "thorough": "plain"}
 HARNESS_TIMEOUT = 1500
 RTOL_DIR = 1e-9      # direction recomputed by the model vs logged direction, relative to |d|_inf (lbfgs, bfgs, gd, cgd)
 RTOL_GTEST = 1e-12
-# The quasi-Newton updates other than BFGS divide by quantities that vanish at the solution (DFP, Hoshino, Fletcher: 1e-6);
-# cgd-n divides by |pd| min(eta, |pg|). SR1 divides by (dx - H dg).dg, guarded only by r ~ 1e-8: rounding differences between
-# Eigen's and the model's reductions are amplified by up to 1/r per update, so only its first three directions are compared.
+# The quasi-Newton matrix H is not logged, so the model's H accumulates the rounding differences of all earlier updates; the
+# updates other than BFGS divide by quantities that vanish at the solution (DFP, Hoshino, Fletcher: 1e-6). (cgd and L-BFGS
+# directions are recomputed from logged quantities only: previous direction / iterates.) SR1 divides by (dx - H dg).dg, guarded
+# only by r (1e-8 by default, down to 1e-10 in the generator): whether the guard fires, and the update itself, are decided at
+# the level of the rounding differences between Eigen's and the model's reductions, so only its first direction is compared
+# (all its decisions - converged flags, done, returned state - still are).
+# The error is measured relative to max(|d|_inf, |g|_inf): d = -g + beta pd (cgd) and d = -H g cancel almost completely close
+# to the solution of an ill-conditioned problem, where |d| itself is rounding noise.
 # Fletcher's switch with the scaled start decides its first update by the sign of dx.dg - dg'H dg, which is 0 in exact
 # arithmetic for H = (dx.dg / dg.dg) I: only the first direction is compared there.
-DIR_TOL = {"dfp": 1e-6, "hoshino": 1e-6, "fletcher": 1e-6, "cgd-n": 1e-6, "sr1": 1e-6}
-DIR_ONLY_FIRST = {"sr1": 3, "fletcher+scaled": 1, "sr1+scaled": 1}   # (SR1 after the scaled start: (dx - H dg).dg = 0 exactly)
+DIR_TOL = {"dfp": 1e-6, "hoshino": 1e-6, "fletcher": 1e-6, "sr1": 1e-6}
+DIR_ONLY_FIRST = {"sr1": 1, "fletcher+scaled": 1, "sr1+scaled": 1}   # (SR1 after the scaled start: (dx - H dg).dg = 0 exactly)
 ILL_CONDITIONED = {"mse+ridge[1e+06]", "mse+ridge[10000]", "powell"}   # tolerance x 1e3 (Hessians with kappa >= 1e6 / singular at the optimum)
 
 LS_SOLVERS = ["gd", "cgd-pr", "cgd-n", "cgd-hs", "cgd-fr", "cgd-cd", "cgd-ls", "cgd-dy", "cgd-dycd", "cgd-dyhs", "cgd-frpr",
@@ -169,8 +177,8 @@ def gen(rng, tier):
     cp = os.path.join(vlib.VERIF, "corpus", "C01", "ops.txt")
     if os.path.exists(cp):
         ops += [l.strip() for l in open(cp) if l.strip() and not l.startswith("#")]
-    n_stmt = 120 if tier == "quick" else 1500
-    n_truth = 400 if tier == "quick" else 6000
+    n_stmt = 300 if tier == "quick" else 2000
+    n_truth = 1000 if tier == "quick" else 8000
     # the statement's experiment
     for k in range(n_stmt):
         sid = "lbfgs" if k % 2 == 0 else "bfgs"
@@ -363,7 +371,8 @@ def oracle(aug, res):
         mt = Toks(o.meta); mt.s(); lmin = mt.f(); xs = mt.fs()
         if r.status != 1:
             return f"statement: status {STATUS.get(r.status, r.status)} instead of converged after {r.units} evaluations"
-        if r.units > 1500:
+        default_cfg = "solver::lbfgs::history" not in o.params and "solver::quasi::initialization" not in o.params
+        if default_cfg and r.units > 1500:
             return f"statement: converged after {r.units} > 1500 function+gradient evaluations"
         dist = math.sqrt(sum((p - q) ** 2 for p, q in zip(r.x, xs)))
         bound = math.sqrt(o.n) * o.eps * max(1.0, abs(f)) / lmin
@@ -414,15 +423,27 @@ def distribution(ops):
     return d
 
 
-def vec_close(a, b, rtol):
+def vec_close(a, b, rtol, floor=0.0):
     if len(a) != len(b):
         return False
     if any(x != x for x in a) or any(x != x for x in b):
         return all(same(x, y) for x, y in zip(a, b))
-    scale = max([abs(x) for x in a] + [0.0])
+    scale = max([abs(x) for x in a] + [floor])
     if scale == math.inf:
         return all(x == y for x, y in zip(a, b))
     return all(abs(x - y) <= rtol * scale for x, y in zip(a, b))
+
+
+def logged_gradient_norms(aug):
+    """|g|_inf at the start of every logged iteration (from the trace part of the A line)"""
+    t = Toks(aug.split(" | ", 1)[1])
+    t.int(); t.f(); t.int(); t.int(); t.int(); t.f(); t.f(); t.f(); t.int(); logged = t.int()
+    t.s(); t.fs(); t.f(); t.fs(); t.int(); t.int()
+    out = []
+    for _ in range(logged):
+        t.fs(); g = t.fs(); t.f(); t.fs(); t.f(); t.int(); t.f(); t.fs(); t.fs(); t.f(); t.int(); t.int(); t.int()
+        out.append(max([abs(v) for v in g if v == v] + [0.0]))
+    return out
 
 
 def compare(aug, impl, model):
@@ -452,13 +473,18 @@ def compare(aug, impl, model):
     if miters != r.logged or mlogged != r.logged:
         return False
     o = parse_op(aug)
+    gnorms = logged_gradient_norms(aug)
     tol = DIR_TOL.get(o.sid, RTOL_DIR) * (1e3 if o.fid in ILL_CONDITIONED else 1.0)
     key = o.sid + ("+scaled" if o.params.get("solver::quasi::initialization") == "scaled" else "")
     only_first = DIR_ONLY_FIRST.get(key, DIR_ONLY_FIRST.get(o.sid, 1 << 30))
     for k in range(r.logged):
         d = t.fs(); conv = t.int(); valid = t.int(); gtest = t.f(); xpred = t.fs(); t.int(); t.int()
         di, ci, vi, gi, oki, xn = r.it[k]
-        if k < only_first and not vec_close(di, d, tol):
+        gk = gnorms[k] if k < len(gnorms) else 0.0
+        # a direction that cancelled down to < 1e-6 |g| is rounding noise, and so is the has_descent / restart decision taken
+        # on it (seen with cgd on mse+ridge[1e+06] at eps = 1e-11): not compared
+        degenerate = min(max([abs(v) for v in di] + [0.0]), max([abs(v) for v in d] + [0.0])) < 1e-6 * gk
+        if k < only_first and not degenerate and not vec_close(di, d, tol, gk):
             return False
         if conv != ci or valid != vi:
             return False
